@@ -305,8 +305,16 @@ func init() {
 					}
 					// the moment the call returns: who is still there?
 					if err == nil && how == "stop" { // the statement speaks of a graceful stop
+						skip := map[string]bool{}
+						if v != "" {
+							// what hangs below a process that the fault thread KILLED is taken down
+							// through links, not through the graceful stop: checked at quiescence only
+							for _, d := range t.descendants(v) {
+								skip[d] = true
+							}
+						}
 						for _, n := range []string{"S", "w1", "w2"} {
-							if t.anyAlive(n) {
+							if t.anyAlive(n) && !skip[n] {
 								atReturn = append(atReturn, n)
 							}
 						}
